@@ -252,7 +252,7 @@ def run(text, alg, outputs=("xml", "export")):
     return x, res.get("export"), None
 
 
-def compare_results(tag, x1, x2, stats, tolc=2e-5):
+def compare_results(tag, x1, x2, stats, tolc=2e-5, tol_ang=5e-1):
     fails = []
     S1, S2 = x1["summary"], x2["summary"]
     for k in ("dof", "defect", "equations", "unknowns"):
@@ -283,7 +283,7 @@ def compare_results(tag, x1, x2, stats, tolc=2e-5):
             ang = a["tag"] in ("direction", "angle", "zenith-angle", "azimuth")
             d = a["adj"] - b["adj"]
             d = ((d + 200) % 400 - 200) * 1e4 if ang else d * 1e3
-            if abs(d) > (5e-1 if ang else 1e3 * tolc):
+            if abs(d) > (tol_ang if ang else 1e3 * tolc):
                 fails.append("%s.adjusted_obs: %s %s->%s differ by %.3g" % (tag, a["tag"], a.get("from", a.get("id")), a.get("to", ""), d))
                 break
             if abs(a["stdev"] - b["stdev"]) > 1e-2 * max(a["stdev"], b["stdev"]) + 1e-2:      # (0.01 cc | mm: noise level of error-free cases)
